@@ -110,6 +110,7 @@ fn concurrent_ride_along(tape: &mut Tape, ctx: &RunCtx) -> RunOut {
         preexisting: true,
         clock_small: true,
         sampled_faults: false,
+        clock_jump: false,
         debris: true,
         focus: 4,
     };
@@ -138,6 +139,11 @@ fn concurrent_ride_along(tape: &mut Tape, ctx: &RunCtx) -> RunOut {
             if finished && ep.unlink_attempts != need && v.is_none() {
                 v = Some(Violation::new("victim-count", format!("maintenance of {} listed {} files for a capacity of {} and tried to delete {} (exactly {} are needed){}", ep.dir, ep.listed, cap, ep.unlink_attempts, need, if ep.raced { "; some entry vanished under the pass" } else { "" })));
             }
+        }
+    }
+    if v.is_none() {
+        if let Some((n, m)) = run.w.inv.lock().unwrap().violations.iter().find(|(n, _)| *n == "maintenance-path") {
+            v = Some(Violation::new(n, m.clone()));
         }
     }
     out.count("episodes", run.w.inv.lock().unwrap().episodes.len() as u64);
@@ -233,11 +239,33 @@ impl Check for C07 {
         if sharded {
             w.script_shard(0, vec![shard_draw(nshards, other_shard)], DrawPolicy::Const(0));
         }
+        // one run in eight: a peer removes an entry under the pass -- the
+        // restamp (or the stat, or the unlink) of one listed entry reports
+        // ENOENT.  The pass must skip that entry and carry on; the outcome is
+        // then judged by the ride-along invariants only.
+        let vanish = w.draw(8) == 7;
+        let vanish_at = w.draw(12);
+        if vanish {
+            let prefix = format!("{}/", root);
+            let mut seen = 0u64;
+            let mut done = false;
+            w.sim.lock().injector = Some(Box::new(move |info, _t| {
+                if done || !info.lib || !matches!(info.kind, kismet_vfs::kernel::K::Utimens | kismet_vfs::kernel::K::Unlink | kismet_vfs::kernel::K::FstatAt) || !info.raw.starts_with(&prefix) || info.raw.contains("/.kismet_temp") || info.raw.ends_with("/newkey") {
+                    return None;
+                }
+                seen += 1;
+                if seen > vanish_at {
+                    done = true;
+                    return Some(libc::ENOENT);
+                }
+                None
+            }));
+        }
         let tag = 7;
         let res: Option<OpRes> = match entry {
             Entry07::Prune => {
                 w.enter(0);
-                let r = kismet_cache::raw_cache::prune(PathBuf::from(&root), cap);
+                let r = lib(|| kismet_cache::raw_cache::prune(PathBuf::from(&root), cap));
                 if let Err(e) = r {
                     out.violation = Some(Violation::new("prune-error", format!("prune failed: {}", e)));
                 }
@@ -260,6 +288,29 @@ impl Check for C07 {
             }
         };
         w.leave();
+        let vanished = vanish && w.trace_from(0).iter().any(|r| r.injected);
+        w.sim.lock().injector = None;
+        if vanished {
+            out.count("fault:entry_vanished_under_the_pass", 1);
+            if let Some(r) = &res {
+                if r.out.is_err() || r.panic.is_some() {
+                    out.violation = Some(Violation::new("op-error", format!("an entry vanished under the pass and the maintaining write failed: {}", r.short())));
+                }
+            }
+            if let Some((n, m)) = w.inv.lock().unwrap().violations.iter().find(|(n, _)| *n == "maintenance-path") {
+                out.violation = Some(Violation::new(n, m.clone()));
+            }
+            out.nontrivial = true;
+            out.sig = hash_str(&format!("vanish|{:?}|{}|{}|{}", entry, n, cap, vanish_at));
+            if let Some(v) = out.violation.as_mut() {
+                v.detail.push(format!("entry={:?} n={} cap={} {}", entry, n, cap, kn.describe()));
+                v.detail.extend(trace_tail(&w.trace_from(0), 80));
+            }
+            let fin = w.finish(tape);
+            out.steps = fin.steps;
+            out.sim_ns = fin.sim_ns;
+            return out;
+        }
         if let Some(r) = &res {
             if r.out.is_err() || r.panic.is_some() {
                 out.violation = Some(Violation::new("op-error", format!("maintaining write failed: {}", r.short())));
@@ -326,8 +377,10 @@ impl Check for C07 {
                     out.violation = Some(Violation::new("no-maintenance", format!("directory {} was not maintained", d)));
                 }
             }
-            if sharded && pops.len() > 1 && !pops[1..].iter().any(|(d, _)| inv.episodes.iter().any(|e| e.dir == *d)) {
-                out.violation = Some(Violation::new("no-maintenance", "a maintaining sharded write did not maintain any other shard".to_string()));
+            // (which other shard, if any, is the implementation's business:
+            // the statement judges the passes that do run; reach is counted)
+            if sharded && pops.len() > 1 && pops[1..].iter().any(|(d, _)| inv.episodes.iter().any(|e| e.dir == *d)) {
+                out.count("probe:other_shard_maintained", 1);
             }
         }
         // signature
